@@ -594,7 +594,9 @@ func c09Reader(r *core.Run, s Stream, p C09R) {
 				var o []byte
 				o, err2, proto2 = readAll(rd, p.Buf, 1<<24)
 				out2 = append(out2, o...)
-				if err2 == io.EOF || err2 == nil {
+				if !errors.Is(err2, errInjected) {
+					// the end, or an error of the reader itself (which has then been reported: the
+					// readers keep no sticky error, so reading on after it is not constrained)
 					break
 				}
 			}
